@@ -1072,6 +1072,7 @@ Theorem allocate_mini_within_capacity : forall s v mids r rids dids,
   lenN (minifat s) < lenN mids * (slen s / 4) ->
   nthN (dirs s) ROOT_STREAM_ID = Some r ->
   d_start r <> END_OF_CHAIN -> d_len r mod MINI_SECTOR_LEN = 0 ->
+  d_len r <= MINI_SECTOR_LEN * lenN (minifat s) ->
   chain_ids_of (fat s) (d_start r) = Ok rids ->
   d_len r < slen s * lenN rids ->
   lenN (utf16 (d_name r)) <= MAX_NAME_LEN ->
@@ -1084,7 +1085,7 @@ Theorem allocate_mini_within_capacity : forall s v mids r rids dids,
     dirs s' = updN (dirs s) ROOT_STREAM_ID
                 (set_start_len r (d_start r) (d_len r + MINI_SECTOR_LEN)).
 Proof.
-  intros s v mids r rids dids Hm Hstart Hmc Hmg Hmcap Hr Hrs Hrl Hrc Hrcap Hname Hdc Hdg Hdne.
+  intros s v mids r rids dids Hm Hstart Hmc Hmg Hmcap Hr Hrs Hrl Hrfit Hrc Hrcap Hname Hdc Hdg Hdne.
   pose proof (fps_slen s) as Hfs. unfold fat_per_sector in Hfs.
   unfold allocate_mini_sector. rewrite bind_get.
   assert (Hpop : pop_free_mini (S (length (mfree s))) s = (s, Ok None)).
@@ -1120,7 +1121,7 @@ Proof.
       rewrite bind_get. unfold chain_len. cbn [c_ids].
       destruct (slen s * lenN rids <=? d_len r) eqn:E; [lia | reflexivity]. }
     rewrite (bind_exec _ _ _ _ _ Hns).
-    unfold with_dir_entry_mut.
+    unfold with_dir_entry_mut, with_dir_entry_mut_inner.
     rewrite (bind_exec _ _ _ _ _ (dir_entry_exec s _ r Hr)).
     set (r' := set_start_len r (d_start r) (d_len r + MINI_SECTOR_LEN)).
     rewrite (bind_exec _ _ _ _ _ (set_dir_entry_exec s _ r r' Hr)).
@@ -1152,6 +1153,9 @@ Proof.
       split; [exact (same_shape_trans _ _ _ Hsh2 Hsh3)|].
       split; [exact Hmfr3|]. split; [exact Hmf3 | exact Hd3]. }
   destruct Happ as (s1 & E1 & Hsh1 & C5 & C6 & C7).
+  rewrite (bind_exec _ _ _ _ _ (dir_entry_exec s _ r Hr : root_entry s = (s, Ok r))).
+  destruct (d_len r <? (lenN (minifat s) + 1) * MINI_SECTOR_LEN) eqn:Elt;
+    [|apply N.ltb_ge in Elt; unfold MINI_SECTOR_LEN in *; lia].
   rewrite (bind_exec _ _ _ _ _ E1).
   pose proof (same_shape_slen _ _ Hsh1) as Hsl1.
   pose proof Hsh1 as (A1 & A2 & A3 & A4 & A5 & A6 & A7 & A8 & A9).
@@ -1318,6 +1322,7 @@ Module Examples.
     - exact Hr.
     - rewrite Hrs. vm_compute. discriminate.
     - rewrite Hrl. reflexivity.
+    - rewrite Hrl. vm_compute. discriminate.
     - rewrite Hrs. vm_compute. reflexivity.
     - rewrite Hrl. vm_compute. reflexivity.
     - rewrite Hrn. vm_compute. discriminate.
